@@ -91,7 +91,9 @@ func vAfterFailure(c *Client, conn *vConn) {
 // callback, an exception before anything else, unknown and unexpected packets - under three
 // non-preemptive scheduling policies.
 func VerifC04Faults() {
-	v := 54460
+	// the negotiated revision: the current one, before the elapsed-time field of Progress,
+	// before parameters/parallel replicas, before the custom-serialization byte of blocks
+	v := [4]int{54460, 54459, 54453, 54445}[verifChoice("revision", verifParam("revisions", 1))]
 	verifSchedPolicy(vPolicies[verifChoice("policy", len(vPolicies))], 0)
 	s := vMakeScenario(verifChoice("scenario", 2), v)
 	conn := vNewConn(s.script)
